@@ -73,7 +73,14 @@ impl<'a> Lexer<'a> {
 
     /// consume the whitespace sequence following the stream start
     pub fn next_stream(&mut self) -> Result<()> {
-        let pos = self.skip_whitespace(self.pos)?;
+        // white-space and comments may stand between the dictionary and the keyword
+        let mut pos = self.skip_whitespace(self.pos)?;
+        while self.buf.get(pos) == Some(&b'%') {
+            while !matches!(self.buf.get(pos), None | Some(b'\n') | Some(b'\r')) {
+                pos += 1;
+            }
+            pos = self.skip_whitespace(pos)?;
+        }
         if !self.buf[pos ..].starts_with(b"stream") {
             // bail!("next token isn't 'stream'");
         }
